@@ -703,27 +703,27 @@ def vp_case(draw, tier="quick"):
 LEGS = [
     Leg(
         name="interp", run=run_interp, strategy=lambda tier: interp_case(tier),
-        quick=1500, thorough=15000, quick_shards=4, thorough_shards=4, nt_floor=0.3,
+        quick=1500, thorough=15000, quick_shards=4, thorough_shards=8, nt_floor=0.3,
         rule="one of the 11 matching extrap/interp pairs on generated brackets, sample and t_s in [0, dt] "
              "(strata 0, dt, dt/2, k/8, k/3, 1/64, random; float32/float64; scalar or tensor t_s); non-trivial "
              "when >= 1 element has pairwise distinct prev/next/sample and 0 < t_s < dt outside the nearest band",
     ),
     Leg(
         name="dist", run=run_dist, strategy=lambda tier: dist_case(tier),
-        quick=600, thorough=8000, quick_shards=4, thorough_shards=4, nt_floor=0.5,
+        quick=600, thorough=8000, quick_shards=4, thorough_shards=8, nt_floor=0.5,
         rule="Poisson (support 0..rate+12 sqrt(rate)+15) / Normal / LogNormal (4801-point grid over +-12 sd) "
              "with palette and drawn parameters, float32/float64, parameters as float / 0-dim / (1,) tensor; "
              "non-trivial when the density is >= 1e-6 on >= 2 (Poisson) / >= 100 (continuous) grid points",
     ),
     Leg(
         name="isi", run=run_isi, strategy=lambda tier: isi_case(tier),
-        quick=1500, thorough=15000, quick_shards=4, thorough_shards=4, nt_floor=0.25,
+        quick=1500, thorough=15000, quick_shards=4, thorough_shards=8, nt_floor=0.25,
         rule="boolean rasters, population shapes of rank 1-3, T <= 24 (60 thorough), time-first and time-last, "
              "empty / single-spike / dense trains; non-trivial when >= 2 trains have >= 2 spikes with different counts",
     ),
     Leg(
         name="vp", run=run_vp, strategy=lambda tier: vp_case(tier),
-        quick=600, thorough=6000, quick_shards=4, thorough_shards=4, nt_floor=0.2,
+        quick=600, thorough=6000, quick_shards=4, thorough_shards=8, nt_floor=0.2,
         rule="triples of spike-time vectors (<= 5 spikes, 7 thorough; float32/float64/int64) and 1-3 costs from "
              "{0, dyadic, drawn, 1000, inf}; non-trivial when |a| != |b|, both non-empty and some finite positive "
              "cost gives d(a,b) < |a|+|b| (a shift is cheaper than delete+insert)",
